@@ -24,7 +24,21 @@ import (
 var reRoutines = regexp.MustCompile(`Signature #\d+: (\d+) routine`)
 
 // handler id method maxmem augment similarity | status complete
+// wantAugmented: is source analysis on for this request (nil error path only)
+func wantAugmented(augment string) bool {
+	if augment == "\x00" {
+		return true
+	}
+	v, err := strconv.Atoi(augment)
+	return err == nil && v == 1
+}
+
 func emitHandler(id, method, maxmem, augment, similarity string) {
+	emitHandlerBig(id, method, maxmem, augment, similarity, 0)
+}
+
+// dlen: the size of this process's dump when it is known to exceed the initial 1 MiB buffer (0 otherwise)
+func emitHandlerBig(id, method, maxmem, augment, similarity string, dlen int) {
 	q := url.Values{}
 	if maxmem != "\x00" {
 		q.Set("maxmem", maxmem)
@@ -76,6 +90,10 @@ func emitHandler(id, method, maxmem, augment, similarity string) {
 			if n0 == n1 && sum != n0 {
 				complete = "0"
 			}
+			// the parked goroutines of this harness have sources on disk: their arguments are typed iff augment is on
+			if has := bytes.Contains(body, []byte("*WaitGroup(")); has != wantAugmented(augment) {
+				complete = "A"
+			}
 		}
 	}()
 	enc := func(s string) string {
@@ -84,17 +102,47 @@ func emitHandler(id, method, maxmem, augment, similarity string) {
 		}
 		return hexs([]byte(s))
 	}
-	emit("handler", id, hexs([]byte(method)), enc(maxmem), enc(augment), enc(similarity), strconv.Itoa(status), complete)
+	emit("handler", id, hexs([]byte(method)), enc(maxmem), enc(augment), enc(similarity), strconv.Itoa(status), complete, strconv.Itoa(dlen))
 }
 
 func opHandler(r *rand.Rand, n int, tier string) {
-	methods := []string{"GET", "GET", "GET", "POST", "HEAD", "PUT", "get"}
+	methods := []string{"GET", "GET", "GET", "GET", "GET", "GET", "GET", "GET", "POST", "HEAD", "PUT", "get"}
 	maxmems := []string{"\x00", "1", "2097152", "abc", "-5", "+7", "1_000", "99999999999999999999", " 1", "0x10", "1048576"}
 	augments := []string{"\x00", "0", "1", "2", "-1", "x", "+1", "01"}
 	sims := []string{"\x00", "exactflags", "exactlines", "anypointer", "anyvalue", "alike", "AnyPointer", " anyvalue"}
+	// a few goroutines parked in functions whose sources are on disk
+	stop := make(chan int)
+	var wg sync.WaitGroup
+	wg.Add(3)
+	for k := 0; k < 3; k++ {
+		// (a multi-line function: for a one-line function the frame's line starts at the declaration itself
+		//  and the source analysis finds no enclosing function)
+		go parkSelect(stop, stop, &wg)
+	}
+	wg.Wait()
+	time.Sleep(2 * time.Millisecond)
 	for i := 0; i < n; i++ {
 		emitHandler(fmt.Sprintf("handler-%d", i), methods[r.Intn(len(methods))], maxmems[r.Intn(len(maxmems))], augments[r.Intn(len(augments))], sims[r.Intn(len(sims))])
 	}
+	// a process whose dump exceeds the initial 1 MiB buffer: the grow-and-retry capture
+	big := 6000
+	var wg2 sync.WaitGroup
+	wg2.Add(big)
+	for k := 0; k < big; k++ {
+		go parkRecv(stop, &wg2)
+	}
+	wg2.Wait()
+	time.Sleep(20 * time.Millisecond)
+	buf := make([]byte, 64<<20)
+	dlen := runtime.Stack(buf, true)
+	buf = nil
+	for k, mm := range []int{dlen + 4096, dlen + 200000, 2 << 20, 3<<20 + 12345, 64 << 20} {
+		if mm > dlen {
+			emitHandlerBig(fmt.Sprintf("handler-big-%d", k), "GET", strconv.Itoa(mm), "0", "anyvalue", dlen)
+		}
+	}
+	close(stop)
+	time.Sleep(50 * time.Millisecond)
 }
 
 func init() {
